@@ -43,6 +43,7 @@ def run(ctx):
         ctx.guard(verbatim_matching, ctx, cfg, fs)
         ctx.guard(last_index_tests, ctx, cfg, fs)
         ctx.guard(hide, ctx, cfg, fs)
+        ctx.guard(comp_rebuild, ctx, cfg, fs)
         ctx.guard(hints, ctx, cfg, fs)
         ctx.guard(wrappers, ctx, cfg, fs)
         before = len(ctx.obs)
@@ -111,6 +112,31 @@ def last_index_tests(ctx, cfg, fs):
                            '%s: `index + 1 == len` compares an index into %s with the length of %s (%s)' % (short(b.path), coll, of, sorted({short(q.call.name) for q in lens})), where=b.where(sw.b), cfg=cfg)
     if n == 0:
         raise Broken('no "last element" test found in the alternative / completion code')
+    # "is the item just consumed the one being completed?" = is it the last item of the LINE.  The current scope ends earlier
+    # inside an adjacent group / command block, where its last member is NOT what the user is typing.
+    tl = ctx.look(fs.one(r'^args::inner::State::touching_last_remove$'))
+    cmps = [c for c in tl.calls() if c.is_(r'PartialEq.*>::(eq|ne)$')]
+    sides = set(); good = bool(cmps)
+    def side_roots(op, bb, depth=0):
+        out = set()
+        for r in provenance(tl, op, bb, 'term', through=None):
+            if r.kind == 'call' and r.call.is_(r'::(checked_sub|saturating_sub|wrapping_sub)$') and depth < 3:
+                out |= side_roots(r.call.args[0], r.call.bb, depth + 1)
+            elif r.kind == 'bin' and r.extra['op'].startswith('Sub') and depth < 3:
+                out |= {x for q in provenance(tl, r.extra['a'], r.site[0], r.site[1], through=None) for x in ([('len-of', '.'.join(z.path)) for z in provenance(tl, q.call.args[0], q.call.bb, 'term')] if q.kind == 'call' and q.call.is_(r'::len$') else [(q.kind, '.'.join(q.path))])}
+            elif r.kind == 'call' and r.call.is_(r'::len$'):
+                out |= {('len-of', '.'.join(z.path)) for z in provenance(tl, r.call.args[0], r.call.bb, 'term')}
+            elif r.kind == 'param':
+                out.add(('field', '.'.join(r.path)))
+            else:
+                out.add((r.kind, str(r.what)))
+        return out
+    for c in cmps:
+        for a_ in c.args:
+            sides |= side_roots(a_, c.bb)
+    good = good and sides == {('field', 'current'), ('len-of', 'items')}
+    ctx.ob('L.last-item', 'touching_last_remove:last-of-the-line', good,
+           'touching_last_remove compares %s (expected: the index just consumed with the length of the whole item list, minus one)' % sorted(sides), where=tl.where(), cfg=cfg)
 
 def marker_then_decide(ctx, cfg, fs):
     """whether the run is a completion request is known only AFTER the items were scanned for the `--bpaf-complete-rev=N`
@@ -173,6 +199,27 @@ def no_late_none(ctx, cfg, fs):
     second_is_last = any('next' in d for d in desc[1]) if len(desc) > 1 else False
     ctx.ob('N.no-late-none', 'check_complete:no-none-after-last-item', cont is not None and not late and second_is_last,
            'once the item being completed is in hand, check_complete always answers Some(..): %s' % (late or 'no later None return'), where=b.where(), cfg=cfg)
+
+def comp_rebuild(ctx, cfg, fs):
+    """complete(..) / complete_shell(..) take the hints the inner parser produced out of the state, replace the METAVARIABLE
+    hints by their own suggestions and must put every other hint (flag and command names pushed by a parser that succeeded
+    without its item: fallback, optional, many) back as it was"""
+    for rx, nm in ((r'^<structs::ParseComp<P, F> as Parser<T>>::eval$', 'ParseComp'), (r'^<complete_shell::ParseCompShell<P> as Parser<T>>::eval$', 'ParseCompShell')):
+        b = ctx.look(fs.one(rx))
+        im = [c for c in b.calls() if c.is_(r'is_metavar$')]
+        nx = [c for c in b.calls() if c.is_(r'IntoIter<.*Comp.*Iterator>::next$', r'Iterator>?::next$') and 'Comp' in c.full]
+        pc = [c.bb for c in b.calls() if c.is_(r'Complete::push_comp$')]
+        if len(im) != 1 or not nx:
+            raise Broken('%s::eval: the loop over the stashed hints was not found' % nm)
+        sw = switch_on_call(b, im[0])
+        ok = sw is not None and sw.kind == 'enum' and sw.target('None') is not None and bool(pc)
+        lost = False
+        if ok:
+            # from the "not a metavariable" edge the next iteration (or the end of the loop) is reached only through push_comp
+            reach = reachable_edges(b, sw.target('None'), avoid=pc)
+            lost = any(n_.bb in reach for n_ in nx) or any(r_ in reach for r_ in b.return_blocks())
+        ctx.ob('H.hide', '%s:other-hints-put-back' % nm, ok and not lost,
+               '%s: a stashed hint that is not a metavariable always goes back through push_comp before the next hint is looked at: %s' % (nm, ok and not lost), where=b.where(), cfg=cfg)
 
 def hide(ctx, cfg, fs):
     spec = {
